@@ -94,6 +94,10 @@ func init() {
 		"github.com/pingcap/errors.callers": func(fr *frame, a []value) value { return (*value)(nil) },
 		"github.com/pingcap/errors.callersSkip": func(fr *frame, a []value) value { return (*value)(nil) },
 		"time.Sleep":         func(fr *frame, a []value) value { return nil },
+		// contexts are never cancelled and never time out (DESIGN.md §3.5)
+		"context.WithTimeout":  ctxWithCancel,
+		"context.WithDeadline": ctxWithCancel,
+		"context.WithCancel":   ctxWithCancel,
 
 		// fmt / strconv / strings: native when concrete
 		"fmt.Sprintf": fmtSprintf,
@@ -607,3 +611,7 @@ func sortSort(fr *frame, a []value) value {
 	}
 	return nil
 }
+
+var noopCancel = &hostFunc{name: "context.cancel", f: func(in *interp, args []value) value { return nil }}
+
+func ctxWithCancel(fr *frame, a []value) value { return tuple{a[0], noopCancel} }
